@@ -6,5 +6,5 @@ d=$(mktemp -d /tmp/vfpat.XXXXXX); snap=$(mktemp -d /tmp/vsnap.XXXXXX)
 rsync -a --exclude .git --exclude docs --exclude build /repo/ "$d/"
 rsync -a --exclude .git --exclude .deps --exclude evidence --exclude replays --exclude seeded --exclude .scratch /verif/ "$snap/"
 ( cd "$d" && patch -p1 --no-backup-if-mismatch < "$p" ) || { echo "patch failed"; rm -rf "$d" "$snap"; exit 8; }
-( cd "$snap" && VT_REPO="$d" timeout 2400 ./check "$id" --no-evidence "$@" 2>&1 | grep -E "^VIOLATION|^--- |HARNESS|KNOWN|tier=|Error|error" | cut -c1-400 )
+( cd "$snap" && VT_REPO="$d" timeout 2400 ./check "$id" --no-evidence "$@" > "$snap/.out" 2>&1; echo "EXIT rc=$?" >> "$snap/.out"; grep -E "^VIOLATION|^--- |HARNESS|KNOWN|NOTE|tier=|Error|error|^EXIT" "$snap/.out" | cut -c1-400 )
 rm -rf "$d" "$snap"
